@@ -324,7 +324,7 @@ impl Property for CpuProp {
     }
     fn expected_probes(&self) -> Vec<&'static str> {
         match self.0 {
-            Which::C02 => vec!["int_im01", "int_im2", "int_releases_halt", "nmi_releases_halt", "int_masked", "boundary_after_ei_di_not_sampled", "prefix_chain", "halt_step", "lockstep_crafted_boundary", "lockstep_host_action", "lockstep_crafted_short_im2_handler"],
+            Which::C02 => vec!["int_im01", "int_im2", "int_releases_halt", "nmi_releases_halt", "int_masked", "boundary_after_ei_di_not_sampled", "prefix_chain", "halt_step", "lockstep_crafted_boundary", "lockstep_host_action", "lockstep_crafted_short_im2_handler", "prefix_chain_of_a_thousand"],
             _ => vec!["variant_taken_or_repeat", "ignored_prefix"],
         }
     }
@@ -363,6 +363,11 @@ impl Property for CpuProp {
         };
         sc.set("theme", theme as i64);
         sc.set("steps", rng.range(300, 2000));
+        if self.0 == Which::C02 && idx % 250 == 17 {
+            let n = *rng.pick(&[1023i64, 1024, 1025, 1026, 1027, 2050, 4100]);
+            sc.set("chain", n);
+            sc.set("steps", n + 40);
+        }
         sc.set("io_seed", (rng.next() >> 1) as i64);
         sc.set("line_seed", (rng.next() >> 1) as i64);
         sc.set("bb_seed", (rng.next() >> 1) as i64);
@@ -467,8 +472,27 @@ impl Property for CpuProp {
                 let Some(regs) = sc.ops.iter().find(|o| o.k == "regs") else { return Ok(()) };
                 let st = CpuState::from_ops(&regs.a);
                 let steps = sc.get("steps").clamp(0, 20_000) as usize;
-                let mem = gen_memory(sc.get("mem_seed") as u64, (sc.get("theme").clamp(0, THEMES as i64 - 1)) as usize);
-                let lines = gen_lines(sc.get("line_seed") as u64, steps + 8, sc.get("int_density").clamp(0, 1000) as u64, sc.get("nmi_density").clamp(0, 1000) as u64);
+                let mut mem = gen_memory(sc.get("mem_seed") as u64, (sc.get("theme").clamp(0, THEMES as i64 - 1)) as usize);
+                let mut lines = gen_lines(sc.get("line_seed") as u64, steps + 8, sc.get("int_density").clamp(0, 1000) as u64, sc.get("nmi_density").clamp(0, 1000) as u64);
+                // a DD/FD chain of a thousand or more prefixes right at PC while the INT line is held active and
+                // interrupts are enabled: the request waits until the instruction behind the chain has run
+                let chain = sc.get("chain").clamp(0, 8000) as usize;
+                let mut st = st;
+                if chain > 0 {
+                    ctx.probe("prefix_chain_of_a_thousand");
+                    let mut r = Rng::new(sc.get("mem_seed") as u64 ^ 0xC4A1);
+                    for i in 0..chain {
+                        mem[(st.pc as usize + i) & 0xFFFF] = if r.bool() { 0xDD } else { 0xFD };
+                    }
+                    mem[(st.pc as usize + chain) & 0xFFFF] = *r.pick(&[0x00u8, 0x3E, 0x23, 0x7E, 0xE5]);
+                    st.iff1 = true;
+                    st.iff2 = true;
+                    st.halted = false;
+                    // (not yet at the boundary in front of the chain: it would be served there)
+                    for (i, l) in lines.iter_mut().enumerate() {
+                        *l = if i == 0 { 0 } else { *l & 2 | 1 };
+                    }
+                }
                 let out = Outside::new(mem, sc.get("io_seed") as u64, lines, sc.get("bb_seed") as u64);
                 let mut w = WorldA::new(&st, out);
                 self.run_steps(&mut w, steps, ctx, true)
